@@ -19,7 +19,7 @@ Parts (what each one is):
       Comments / Idem / Parses on mutants: the harness finds the changed gap that makes the law fail when applied
               to the (passing) origin alone; the key names that gap's syntactic context.
 """
-import collections, json, os, re, subprocess, time
+import collections, json, os, re, subprocess, sys, time
 from common import *
 
 LEVEL = "model_checking"
@@ -29,7 +29,9 @@ MANIFEST = dict(
     note='Trusted: TLC, the harness interning (tokens by kind+text, comments by trimmed text, lines byte-exact), the real lexer as the definition of "code token". The corpus part is exploration of an infinite input space; Render/alignment parts are exhaustive at small scope. Semantic re-run of formatted programs is not done here (token identity modulo optional commas implies identical parse).',
     ref='4/C17')
 CODEC = os.path.join(SPEC, "codec")
-VFMT = os.path.join(HARNESS, "target", "debug", "vfmt")
+# VERIF_C17_VFMT: development aid - a vfmt binary built against a patched copy of dora-format (to try the candidate
+# mutations of target/work/C17-mutants without touching /repo)
+VFMT = os.environ.get("VERIF_C17_VFMT") or os.path.join(HARNESS, "target", "debug", "vfmt")
 GEN_VERSION = 1
 
 COMMA_LISTS = "ARGUMENT_LIST|PARAM_LIST|LAMBDA_PARAM_LIST|TUPLE_EXPR|TUPLE_PATTERN|TUPLE_TYPE|TYPE_ARGUMENT_LIST|TYPE_PARAM_LIST|UNNAMED_FIELD_LIST|NAMED_FIELD_LIST|CTOR_FIELD_LIST|ENUM_VARIANT_LIST|USE_GROUP|LIST_ITEM"
@@ -593,14 +595,28 @@ def run(ctx):
     if ctx.quick:
         sample = sorted(rnd.sample(files, 250))
         widths = [20, 90]
-        mut_origins, per_file, mut_widths = 60, 6, [20, 90]
+        mut_origins, per_file, mut_widths, n_generated = 60, 6, [20, 90], 15
     else:
         sample = files
         widths = [1, 20, 40, 90, 200]
-        mut_origins, per_file, mut_widths = 700, 10, [1, 20, 40, 90, 200]
+        mut_origins, per_file, mut_widths, n_generated = 500, 10, [1, 20, 40, 90, 200], 150
     nproc = 4
     chunks = [sample[k::nproc] for k in range(nproc)]
     batches = [Batch(ctx, f"repo{k}", ch, widths, "repo", id_base=(k + 1) * 10_000_000) for k, ch in enumerate(chunks) if ch]
+    # grammar-directed programs (the typed generator of the DoraSem family: nested expressions, match, lambdas, ...)
+    sys.path.insert(0, os.path.join(VERIF, "gen"))
+    import dsem_gen
+    gdir = os.path.join(ctx.work, "generated")
+    os.makedirs(gdir, exist_ok=True)
+    gfiles = []
+    for k in range(n_generated):
+        src, _ = dsem_gen.generate(ctx.seed * 100003 + k, 3)
+        gf = os.path.join(gdir, f"g{k:04d}.dora")
+        with open(gf, "w") as f:
+            f.write(src)
+        gfiles.append(gf)
+    ctx.add("generated_programs", len(gfiles))
+    batches.append(Batch(ctx, "generated", gfiles, widths, "repo", id_base=9 * 10_000_000))
     # mutants: origins = small files of the sample (so that the records of the unmodified files exist)
     small = [f for f in sample if os.path.getsize(f) < 6000]
     origins = sorted(rnd.sample(small, min(mut_origins, len(small))))
@@ -625,12 +641,12 @@ def run(ctx):
     skipped = [s for x in summ for s in x["skipped"]]
     ctx.add("files_skipped_input_not_syntactically_valid", len(skipped))
     ctx.extra["skipped_inputs"] = skipped[:40]
-    log(f"corpus: {sum(x['records'] for x in summ)} formatter runs recorded ({len(sample)} repository files x widths {widths}, "
+    log(f"corpus: {sum(x['records'] for x in summ)} formatter runs recorded ({len(sample)} repository files + {len(gfiles)} generated programs x widths {widths}, "
         f"{len(mfiles)} mutants of {len(origins)} files x widths {mut_widths}) in {time.time() - t0:.0f}s; skipped {len(skipped)} unparsable inputs")
     process_all(ctx, batches)
     ctx.sample({"record": "test/fmt/use_sort.dora width 90: Tokens rejected at `foo :: { >>> C , B` vs `A , B`; accepted after removing `use` items -> tokens-changed:use-reorder"})
     ctx.cov["rule"] = ("quick: seeded sample of 250 repository files x widths {20,90} + 8 layout mutants of 70 small files; thorough: all files x "
-                       "widths {1,20,40,90,200} + 10 mutants of 700 small files")
+                       "widths {1,20,40,90,200} + 10 mutants of 500 small files; plus 15 / 150 generated programs (gen/dsem_gen.py)")
     ctx.cov["evaluations"] = ctx.cov.get("formatter_runs_recorded", 0)
     ctx.assumptions += [
         "code token = what the real lexer (dora_parser::lex) returns minus white space, line breaks and comments; tokens are compared by (kind, text)",
